@@ -182,7 +182,7 @@ impl QuicMultiplexer {
                         Some(m) => Some(Event::UdpSend(m)),
                         None => return Err(io::Error::new(ErrorKind::Other, "Message receiving channel closed unexpectedly")),
                     },
-                    _ = &mut wait_timeout, if self.closest_deadline.is_some_and(|x| x > Instant::now()) => None,
+                    _ = &mut wait_timeout, if self.closest_deadline.is_some() => None,
                 }
             };
 
@@ -688,17 +688,36 @@ impl QuicMultiplexer {
         for conn_id in timedout {
             self.deadlines.remove(&conn_id);
 
-            match self.connections.get_mut(&conn_id) {
-                None => log_id!(
-                    debug,
-                    self.id,
-                    "Expired connection not found: {:?}",
-                    conn_id
-                ),
-                Some(Connection::Handshake(conn)) => conn.quic_conn.lock().unwrap().on_timeout(),
-                Some(Connection::Established(conn)) => conn.quic_conn.lock().unwrap().on_timeout(),
+            let quic_conn = match self.connections.get(&conn_id) {
+                None => {
+                    log_id!(
+                        debug,
+                        self.id,
+                        "Expired connection not found: {:?}",
+                        conn_id
+                    );
+                    continue;
+                }
+                Some(Connection::Handshake(conn)) => conn.quic_conn.clone(),
+                Some(Connection::Established(conn)) => conn.quic_conn.clone(),
+            };
+
+            let mut quic_conn = quic_conn.lock().unwrap();
+            quic_conn.on_timeout();
+
+            // send what the expired timer produced (probes, a close), and arm the next one
+            let mut out = [0; net_utils::MAX_UDP_PAYLOAD_SIZE];
+            while let Ok((n, info)) = quic_conn.send(&mut out) {
+                if udp_socket_send_to(&self.socket, &out[..n], &info.to, &self.id).is_err() {
+                    break;
+                }
+            }
+            if let Some(timeout) = quic_conn.timeout() {
+                self.deadlines.insert(conn_id, now + timeout);
             }
         }
+
+        self.closest_deadline = self.deadlines.values().min().copied();
     }
 
     fn on_socket_message(&mut self, message: SocketMessage) -> io::Result<()> {
